@@ -2,6 +2,7 @@ import AsynqModel.Lib.Mock
 import AsynqModel.Proofs.Mock
 import AsynqModel.Proofs.MockSim
 import AsynqModel.Proofs.MockFam
+import AsynqModel.Proofs.MockBind
 /-!
 # C19  asynq.mock.patch replaces every calling convention and always restores
 
@@ -81,7 +82,7 @@ theorem C19_conventions_agree (p n : Nat) (s : PSpec) (pt : Patcher) (d : Defaul
     conv (installedObj pt p n) via c args kw = conv (installedObj pt p n) via c' args kw ∧
     (conv (installedObj pt p n) via c args kw).out = s.behav.out ∧
     (conv (installedObj pt p n) via c args kw).calls =
-      [{ callee := expectedCallee p s.repl (installedObj pt p n).tok, args := pre ++ args, kw := kw }] := by
+      [{ callee := expectedCallee p s (installedObj pt p n).tok, args := pre ++ args, kw := kw }] := by
   rw [construct_inv d p s pt hc, conv_installed p n s via c args kw pre hpre,
     conv_installed p n s via c' args kw pre hpre]
   exact ⟨rfl, rfl, rfl⟩
@@ -98,21 +99,51 @@ theorem C19_enter_installs (env : Env) (st : State) (s : PSpec) (pt : Patcher) (
   refine ⟨?_, ?_, ?_⟩
   · unfold enter; simp [h, upd]
   · unfold enter; simp [h]
-  · obtain ⟨t, repl, cr, an, vo, bh⟩ := s
+  · obtain ⟨t, repl, cr, an, vo, bh, sl, sh⟩ := s
     rcases repl with _ | _ | _ | _ | _ | _ | _ | _ | (_ | _) <;>
       simp [installedObj, maybeWrapNew, freshObj, Shape.callable, Repl.desc?, Repl.isCallable, Repl.acceptsAttrs]
 
 /-- **non-callable as is**: a replacement that is not callable is handed to `_patch` unchanged, installed as that
-    very object, and nothing is attached to it -/
+    very object (the patcher's own `new`, or the object it shares with another patcher), and nothing is attached
+    to it -/
 theorem C19_noncallable_as_is (env : Env) (st : State) (s : PSpec) (pt : Patcher) (p : Nat)
     (hr : s.repl = .value) (hc : construct env.defaults p s = .ok pt)
     (h : (!s.create && (getOriginal env st s.target).1.isNone) = false) :
     (enter env pt p st).1.store s.target =
-      some { id := .given p, shape := .value, attached := false, callee := .given p, behav := s.behav } ∧
-    (enter env pt p st).2 = .entered { id := .given p, tag := .asis } := by
+      some { id := s.newId p, shape := .value, attached := false, callee := s.newId p, behav := s.behav } ∧
+    (enter env pt p st).2 = .entered { id := s.newId p, tag := .asis } := by
   obtain ⟨h1, h2, _⟩ := C19_enter_installs env st s pt p hc h
   rw [h1, h2, construct_inv _ p s pt hc]
-  simp [installedObj, maybeWrapNew, hr, Repl.desc?, Repl.isCallable, Shape.callable, Obj.tok]
+  simp [installedObj, maybeWrapNew, hr, Repl.desc?, Repl.isCallable, Shape.callable, Obj.tok, PSpec.newId]
+
+/-- the same for a patcher whose `new` is its own object (not shared with another patcher) -/
+theorem C19_noncallable_as_is_own (env : Env) (st : State) (s : PSpec) (pt : Patcher) (p : Nat)
+    (hs : s.share = none) (hr : s.repl = .value) (hc : construct env.defaults p s = .ok pt)
+    (h : (!s.create && (getOriginal env st s.target).1.isNone) = false) :
+    (enter env pt p st).1.store s.target =
+      some { id := .given p, shape := .value, attached := false, callee := .given p, behav := s.behav } ∧
+    (enter env pt p st).2 = .entered { id := .given p, tag := .asis } := by
+  have hid : s.newId p = .given p := by simp [PSpec.newId, hs]
+  have := C19_noncallable_as_is env st s pt p hr hc h
+  rw [hid] at this
+  exact this
+
+/-- **a shared replacement is one object**: when the `new` of patcher `p` is the very (attribute-accepting callable)
+    object patcher `q` was given, what `p` installs and returns IS that object - not a copy, not a wrapper - and
+    every convention, through every kind of lookup, ends in that one object with the caller's arguments.  (So the
+    helper attributes `_PatchAsync.__enter__` puts on it are on the object both patches show.) -/
+theorem C19_shared_replacement_same_object (p q n : Nat) (s : PSpec) (pt : Patcher) (d : Defaults)
+    (hs : s.share = some q) (hr : s.repl = .callobj) (hc : construct d p s = .ok pt) :
+    (installedObj pt p n).tok = { id := .given q, tag := .asis } ∧
+    ∀ (via : Via) (c : Conv) (args : List Nat) (kw : List (Nat × Nat)),
+      (conv (installedObj pt p n) via c args kw).calls = [{ callee := .given q, args := args, kw := kw }] := by
+  refine ⟨?_, fun via c args kw => ?_⟩
+  · rw [construct_inv d p s pt hc]
+    simp [installedObj, maybeWrapNew, hr, Repl.desc?, Repl.isCallable, Repl.acceptsAttrs, Shape.callable, Obj.tok,
+      PSpec.newId, hs]
+  · have hpre : expectedPrefix s.repl via = some [] := by rw [hr]; rfl
+    rw [(C19_conventions_agree p n s pt d hc via args kw [] hpre c c).2.2]
+    simp [expectedCallee, hr, PSpec.newId, hs]
 
 /-- `__exit__` of an entered patcher never swallows the exception that ends the block, and forgets its saved state
     (a second `__exit__` is an error, not a second restore) -/
@@ -154,6 +185,122 @@ theorem C19_new_callable_counterexample :
                         behav := .ret 1 }])
       = false := by
   decide
+
+/-! ### names that are re-bound between the uses of a patcher; results and errors of every kind -/
+
+/-- **the dotted path is resolved at every `__enter__`**: a patcher built from a string (`patch("pkg.Owner.attr")`)
+    acts on the owner its name refers to at the moment it is entered - not on the one it named when the patcher was
+    constructed, nor on the one an earlier use resolved (`pt0.spec.target` is arbitrary): the replacement goes into
+    that owner's `__dict__`, `__enter__` returns it, and the patcher's `target` now is that owner (so `__exit__`
+    restores there).  A getter that memoises its first answer violates this. -/
+theorem C19_path_resolved_at_every_enter (env : Env) (st : State) (p : Nat) (pt0 : Patcher)
+    (hsk : st.skip = none) (hpt : st.patchers p = some pt0) (hv : pt0.spec.viaObject = false)
+    (hex : (!pt0.spec.create && (getOriginal env st (st.bind pt0.spec.slot)).1.isNone) = false) :
+    let pt := resolveP st.bind pt0
+    let st' := (step env st (.enter p)).1
+    let o := installedObj pt p (st.entries p)
+    st'.store (st.bind pt0.spec.slot) = some o ∧ (step env st (.enter p)).2 = .entered o.tok ∧
+      (st'.patchers p).map (·.spec.target) = some (st.bind pt0.spec.slot) := by
+  have ht := resolveP_target_string st.bind pt0 hv
+  have h : (!(resolveP st.bind pt0).spec.create &&
+      (getOriginal env st (resolveP st.bind pt0).spec.target).1.isNone) = false := by
+    rw [ht, resolveP_create]; exact hex
+  obtain ⟨h1, h2, h3, _, _⟩ := step_enter_ok env st p pt0 hsk hpt h
+  refine ⟨?_, h1, ?_⟩
+  · show (step env st (.enter p)).1.store _ = _
+    rw [h2, ht, upd_same]
+  · show ((step env st (.enter p)).1.patchers p).map _ = _
+    rw [h3, Option.map_some, ht]
+
+/-- the same for `patcher.start()` -/
+theorem C19_path_resolved_at_every_start (env : Env) (st : State) (p : Nat) (pt0 : Patcher)
+    (hsk : st.skip = none) (hpt : st.patchers p = some pt0) (hv : pt0.spec.viaObject = false)
+    (hex : (!pt0.spec.create && (getOriginal env st (st.bind pt0.spec.slot)).1.isNone) = false) :
+    let pt := resolveP st.bind pt0
+    let st' := (step env st (.start p)).1
+    let o := installedObj pt p (st.entries p)
+    st'.store (st.bind pt0.spec.slot) = some o ∧ (step env st (.start p)).2 = .entered o.tok ∧
+      (st'.patchers p).map (·.spec.target) = some (st.bind pt0.spec.slot) := by
+  have ht := resolveP_target_string st.bind pt0 hv
+  have h : (!(resolveP st.bind pt0).spec.create &&
+      (getOriginal env st (resolveP st.bind pt0).spec.target).1.isNone) = false := by
+    rw [ht, resolveP_create]; exact hex
+  obtain ⟨h1, h2, h3, _, _⟩ := step_start_ok env st p pt0 hsk hpt h
+  refine ⟨?_, h1, ?_⟩
+  · show (step env st (.start p)).1.store _ = _
+    rw [h2, ht, upd_same]
+  · show ((step env st (.start p)).1.patchers p).map _ = _
+    rw [h3, Option.map_some, ht]
+
+/-- **`patch.object` keeps its object**: a patcher built with `patch.object(obj, name)` acts on the object it was
+    given at construction (`pt0.spec.target`), whatever its former name refers to now (`st.bind` is arbitrary) - for
+    `with` / decorator and for `start()` alike -/
+theorem C19_object_target_fixed (env : Env) (st : State) (p : Nat) (pt0 : Patcher)
+    (hsk : st.skip = none) (hpt : st.patchers p = some pt0) (hv : pt0.spec.viaObject = true)
+    (hex : (!pt0.spec.create && (getOriginal env st pt0.spec.target).1.isNone) = false) :
+    let o := installedObj pt0 p (st.entries p)
+    ((step env st (.enter p)).1.store pt0.spec.target = some o ∧ (step env st (.enter p)).2 = .entered o.tok ∧
+      (step env st (.enter p)).1.patchers p = some pt0) ∧
+    ((step env st (.start p)).1.store pt0.spec.target = some o ∧ (step env st (.start p)).2 = .entered o.tok ∧
+      (step env st (.start p)).1.patchers p = some pt0) := by
+  have hr := resolveP_object st.bind pt0 hv
+  have h : (!(resolveP st.bind pt0).spec.create &&
+      (getOriginal env st (resolveP st.bind pt0).spec.target).1.isNone) = false := by
+    rw [hr]; exact hex
+  obtain ⟨h1, h2, h3, _, _⟩ := step_enter_ok env st p pt0 hsk hpt h
+  obtain ⟨k1, k2, k3, _, _⟩ := step_start_ok env st p pt0 hsk hpt h
+  rw [hr] at h1 h2 h3 k1 k2 k3
+  exact ⟨⟨by rw [h2, upd_same], h1, h3⟩, ⟨by rw [k2, upd_same], k1, k3⟩⟩
+
+/-- **calls through the name reach the replacement**: after a successful `__enter__` of a string patcher, a caller
+    that goes through the same name (which still names the patched owner) finds the installed object, and all four
+    conventions run on it -/
+theorem C19_calls_through_name_reach_replacement (env : Env) (st : State) (p : Nat) (pt0 : Patcher)
+    (hsk : st.skip = none) (hpt : st.patchers p = some pt0) (hv : pt0.spec.viaObject = false)
+    (hex : (!pt0.spec.create && (getOriginal env st (st.bind pt0.spec.slot)).1.isNone) = false)
+    (args : List Nat) (kw : List (Nat × Nat)) :
+    let pt := resolveP st.bind pt0
+    let st' := (step env st (.enter p)).1
+    let o := installedObj pt p (st.entries p)
+    (step env st' (.call pt0.spec.slot args kw)).2 =
+      .called (Conv.all.map fun c => conv o (env.tspec (st.bind pt0.spec.slot)).via c args kw) := by
+  have ht := resolveP_target_string st.bind pt0 hv
+  have h : (!(resolveP st.bind pt0).spec.create &&
+      (getOriginal env st (resolveP st.bind pt0).spec.target).1.isNone) = false := by
+    rw [ht, resolveP_create]; exact hex
+  obtain ⟨_, h2, _, h4, h5⟩ := step_enter_ok env st p pt0 hsk hpt h
+  have hst : (step env st (.enter p)).1.store ((step env st (.enter p)).1.bind pt0.spec.slot) =
+      some (installedObj (resolveP st.bind pt0) p (st.entries p)) := by
+    rw [h5, h2, ht, upd_same]
+  have := step_call_store env _ pt0.spec.slot _ args kw h4 hst
+  rw [h5] at this
+  exact this
+
+/-- **the result object is handed back untouched**: whatever KIND of object the replacement returns - an ordinary
+    value, None, a falsy object, one of asynq's own futures (ConstFuture, a lazy Future, an ErrorFuture, an AsyncTask),
+    an exception instance, an object whose `__eq__` / `__bool__` raise, a container - every one of the four
+    conventions hands back that very object (a future is not resolved, a falsy result is not dropped); and whatever
+    kind of exception it raises - also one that derives from BaseException only, or is falsy - every convention
+    raises that very exception (nothing is swallowed or replaced) -/
+theorem C19_result_object_untouched (p n : Nat) (s : PSpec) (pt : Patcher) (d : Defaults)
+    (hc : construct d p s = .ok pt) (via : Via) (args : List Nat) (kw : List (Nat × Nat)) (pre : List Nat)
+    (hpre : expectedPrefix s.repl via = some pre) (c : Conv) :
+    (∀ r k, s.behav = .ret r k → (conv (installedObj pt p n) via c args kw).out = .ok r k) ∧
+    (∀ e k, s.behav = .raise e k → (conv (installedObj pt p n) via c args kw).out = .raised (.user e k)) := by
+  have h := (C19_conventions_agree p n s pt d hc via args kw pre hpre c c).2.1
+  exact ⟨fun r k hb => by rw [h, hb]; rfl, fun e k hb => by rw [h, hb]; rfl⟩
+
+/-- **re-binding a name touches no host**: `pkg.Owner = Other` changes what the name refers to and nothing else -
+    every host's `__dict__`, every open patch and every patcher object stay as they are (inside a skipped block body
+    the operation does not even run) -/
+theorem C19_rebind_touches_no_host (env : Env) (st : State) (s t : Nat) :
+    (step env st (.rebind s t)).1.store = st.store ∧ (step env st (.rebind s t)).1.stack = st.stack ∧
+    (step env st (.rebind s t)).1.patchers = st.patchers ∧ (step env st (.rebind s t)).1.saved = st.saved ∧
+    (step env st (.rebind s t)).1.active = st.active := by
+  unfold step
+  cases st.skip with
+  | none => exact ⟨rfl, rfl, rfl, rfl, rfl⟩
+  | some qd => exact ⟨rfl, rfl, rfl, rfl, rfl⟩
 
 /-! non-vacuity -/
 section
@@ -200,6 +347,155 @@ example : spec env1
                        { out := .ok 5, calls := [{ callee := .given 0, args := [1], kw := [] }] }],
        peeks := [some { id := .given 0, tag := .asis }, none] }] = false := by
   decide
+/-! re-bound names and result kinds -/
+/-- two classes with a same-named `@asynq()` method each, reached through instances -/
+private def env2 : Env := { targets := [{ kind := .asyncFn .func, host := .loc, via := .inst },
+                                        { kind := .asyncFn .func, host := .loc, via := .inst }] }
+/-- one string patcher `patch("pkg.Owner.method", fn)`, used twice; between the uses the test re-binds `pkg.Owner`
+    to the other class, and back afterwards -/
+private def hist2 : List Op :=
+  [.construct 0 (sp 0 .func), .enter 0, .call 0 [1] [], .exit 0 false, .rebind 0 1, .enter 0, .call 0 [1] [],
+   .exit 0 true, .rebind 0 0, .call 0 [1] []]
+private def tO0 : Option Tok := some { id := .orig 0, tag := .orig }
+private def tO1 : Option Tok := some { id := .orig 1, tag := .orig }
+private def tR : Tok := { id := .made 0 0, tag := .pair }
+
+example : wellNested env2 hist2 = true := by decide
+example : spec env2 (run env2 hist2) = true := by decide
+example : (final env2 hist2).store = env2.initStore := C19_restore env2 hist2 (by decide)
+/-- during the second use the replacement sits on the class the name refers to NOW; the first class is untouched -/
+example : ((final env2 (hist2.take 6)).store 1).map Obj.tok = some tR ∧
+    ((final env2 (hist2.take 6)).store 0).map Obj.tok = tO0 ∧
+    ((final env2 (hist2.take 6)).patchers 0).map (·.spec.target) = some 1 := by decide
+/-- ... during the first use it sat on the first class -/
+example : ((final env2 (hist2.take 2)).store 0).map Obj.tok = some tR ∧
+    ((final env2 (hist2.take 2)).store 1).map Obj.tok = tO1 := by decide
+/-- ... and a caller that goes through the name during the second use gets the replacement, four times -/
+example : ((run env2 hist2).getD 6 default).res =
+    .called (List.replicate 4 { out := .ok 5, calls := [{ callee := .given 0, args := [instTok, 1], kw := [] }] }) := by
+  decide
+/-- after the block and the re-binding back, the name reaches the first class's original again -/
+example : ((run env2 hist2).getD 9 default).res =
+    .called (List.replicate 4 { out := .ok (origRet 0), calls := [{ callee := .orig 0, args := [instTok, 1], kw := [] }] }) := by
+  decide
+/-- the observer accepts the second use on the class the name refers to now ... -/
+example : spec env2
+    [{ op := .construct 0 (sp 0 .func), res := .made, peeks := [tO0, tO1] },
+     { op := .enter 0, res := .entered tR, peeks := [some tR, tO1] },
+     { op := .exit 0 false, res := .exited false, peeks := [tO0, tO1] },
+     { op := .rebind 0 1, res := .unit, peeks := [tO0, tO1] },
+     { op := .enter 0, res := .entered tR, peeks := [tO0, some tR] }] = true := by
+  decide
+/-- ... and REJECTS what a memoised getter produces: the second use patches the class of the first use again -/
+example : spec env2
+    [{ op := .construct 0 (sp 0 .func), res := .made, peeks := [tO0, tO1] },
+     { op := .enter 0, res := .entered tR, peeks := [some tR, tO1] },
+     { op := .exit 0 false, res := .exited false, peeks := [tO0, tO1] },
+     { op := .rebind 0 1, res := .unit, peeks := [tO0, tO1] },
+     { op := .enter 0, res := .entered tR, peeks := [some tR, tO1] }] = false := by
+  decide
+/-- the same on the observations of the model itself: alter the store seen after the second `__enter__` -/
+example : spec env2 ((run env2 hist2).set 5
+    { op := .enter 0, res := .entered tR, peeks := [some tR, tO1] }) = false := by decide
+/-- a re-binding that moves an open patch (or anything else in a host) is rejected -/
+example : spec env2
+    [{ op := .construct 0 (sp 0 .func), res := .made, peeks := [tO0, tO1] },
+     { op := .enter 0, res := .entered tR, peeks := [some tR, tO1] },
+     { op := .rebind 0 1, res := .unit, peeks := [tO0, some tR] }] = false := by
+  decide
+
+/-- a replacement that returns a `ConstFuture` object -/
+private def spCF : PSpec := { sp 0 .func with behav := .ret 5 .constFuture }
+private def okCF (r : Nat) (k : RKind) : ConvRes :=
+  { out := .ok r k, calls := [{ callee := .given 0, args := [instTok, 1], kw := [] }] }
+/-- the model hands the future back as it is, under all four conventions -/
+example : ((run env2 [.construct 0 spCF, .enter 0, .call 0 [1] []]).getD 2 default).res =
+    .called (List.replicate 4 (okCF 5 .constFuture)) := by decide
+example : spec env2
+    [{ op := .construct 0 spCF, res := .made, peeks := [tO0, tO1] },
+     { op := .enter 0, res := .entered tR, peeks := [some tR, tO1] },
+     { op := .call 0 [1] [], res := .called [okCF 5 .constFuture, okCF 5 .constFuture, okCF 5 .constFuture, okCF 5 .constFuture],
+       peeks := [some tR, tO1] }] = true := by
+  decide
+/-- the observer REJECTS conventions that resolve the future they were handed: `.asynq(...).value()` and
+    `yield .asynq(...)` give the future's value, the sync call and `.asyncio` the future itself -/
+example : spec env2
+    [{ op := .construct 0 spCF, res := .made, peeks := [tO0, tO1] },
+     { op := .enter 0, res := .entered tR, peeks := [some tR, tO1] },
+     { op := .call 0 [1] [], res := .called [okCF 5 .constFuture, okCF 999999 .plain, okCF 999999 .plain, okCF 5 .constFuture],
+       peeks := [some tR, tO1] }] = false := by
+  decide
+/-- ... and a BaseException-only error that one convention turns into an ordinary one -/
+example : spec env2
+    [{ op := .construct 0 { sp 0 .func with behav := .raise 3 .baseOnly }, res := .made, peeks := [tO0, tO1] },
+     { op := .enter 0, res := .entered tR, peeks := [some tR, tO1] },
+     { op := .call 0 [1] [],
+       res := .called [{ out := .raised (.user 3 .baseOnly), calls := [{ callee := .given 0, args := [instTok, 1], kw := [] }] },
+                       { out := .raised (.user 3 .baseOnly), calls := [{ callee := .given 0, args := [instTok, 1], kw := [] }] },
+                       { out := .raised (.user 3 .baseOnly), calls := [{ callee := .given 0, args := [instTok, 1], kw := [] }] },
+                       { out := .raised (.user 3 .exception), calls := [{ callee := .given 0, args := [instTok, 1], kw := [] }] }],
+       peeks := [some tR, tO1] }] = false := by
+  decide
+/-! one replacement object given to two patchers -/
+private def env3 : Env := { targets := [{ kind := .asyncFn .func, host := .loc, via := .plain }] }
+private def spOwn : PSpec := sp 0 .callobj
+private def spShared : PSpec := { sp 0 .callobj with share := some 0 }
+private def hist3 : List Op :=
+  [.construct 0 spOwn, .construct 1 spShared, .enter 0, .enter 1, .call 0 [1] [], .exit 1 false, .call 0 [1] [],
+   .exit 0 false, .call 0 [1] []]
+private def tG : Tok := { id := .given 0, tag := .asis }
+private def okG : ConvRes := { out := .ok 5, calls := [{ callee := .given 0, args := [1], kw := [] }] }
+private def noAttr : ConvRes := { out := .raised .attributeError, calls := [] }
+
+example : wellNested env3 hist3 = true := by decide
+example : spec env3 (run env3 hist3) = true := by decide
+example : (final env3 hist3).store = env3.initStore := C19_restore env3 hist3 (by decide)
+/-- during both calls - under both patches, and under the outer one alone - the host holds the one shared object -/
+example : ((final env3 (hist3.take 5)).store 0).map Obj.tok = some tG ∧
+    ((final env3 (hist3.take 7)).store 0).map Obj.tok = some tG := by decide
+/-- ... and all four conventions work on it, also after the inner patch has ended -/
+example : ((run env3 hist3).getD 4 default).res = .called (List.replicate 4 okG) ∧
+    ((run env3 hist3).getD 6 default).res = .called (List.replicate 4 okG) := by decide
+example : spec env3
+    [{ op := .construct 0 spOwn, res := .made, peeks := [tO0] },
+     { op := .construct 1 spShared, res := .made, peeks := [tO0] },
+     { op := .enter 0, res := .entered tG, peeks := [some tG] },
+     { op := .enter 1, res := .entered tG, peeks := [some tG] },
+     { op := .call 0 [1] [], res := .called [okG, okG, okG, okG], peeks := [some tG] },
+     { op := .exit 1 false, res := .exited false, peeks := [some tG] },
+     { op := .call 0 [1] [], res := .called [okG, okG, okG, okG], peeks := [some tG] }] = true := by
+  decide
+/-- the observer REJECTS what an `__exit__` that strips the helper attributes from the shared object produces: after
+    the inner patch has ended, `.asynq` / `.asyncio` are gone from the object the outer patch still shows -/
+example : spec env3
+    [{ op := .construct 0 spOwn, res := .made, peeks := [tO0] },
+     { op := .construct 1 spShared, res := .made, peeks := [tO0] },
+     { op := .enter 0, res := .entered tG, peeks := [some tG] },
+     { op := .enter 1, res := .entered tG, peeks := [some tG] },
+     { op := .call 0 [1] [], res := .called [okG, okG, okG, okG], peeks := [some tG] },
+     { op := .exit 1 false, res := .exited false, peeks := [some tG] },
+     { op := .call 0 [1] [], res := .called [okG, noAttr, noAttr, noAttr], peeks := [some tG] }] = false := by
+  decide
 end
 
 end AsynqModel.Mock
+
+/-! ## `__enter__` that fails after the replacement is installed (family `enterfail`, small model `Mock.EnterFail`) -/
+namespace AsynqModel.Mock.EnterFail
+
+/-- for EVERY product of `new_callable` - a callable that takes attributes, a non-callable (installed as is), a
+    callable that takes no attributes (`__enter__` fails, after the repair it undoes the patch first) - and every
+    activation style: if the block runs the product is in place, and the original is back afterwards -/
+theorem C19_enter_failure_restores (prod : Product) (style : Style) :
+    spec (run prod style) = true ∧ (run prod style).after = .orig ∧
+      ((run prod style).entered = true ↔ prod ≠ .rejecting) := by
+  cases prod <;> cases style <;> decide
+
+/-! non-vacuity: the observer of this family accepts the good outcome, rejects a leak and rejects a block that ran
+    without the product in place -/
+example : spec { entered := true, during := some .product, after := .orig } = true := by decide
+example : spec { entered := true, during := some .product, after := .product } = false := by decide
+example : spec { entered := true, during := some .orig, after := .orig } = false := by decide
+example : spec { entered := false, during := none, after := .orig } = true := by decide
+
+end AsynqModel.Mock.EnterFail
